@@ -5,6 +5,15 @@ props = [json.loads(l) for l in open('/verif/properties.jsonl')]
 
 # id -> (level text, level note, technique)
 CHECKS = {
+ "C33": ("Random programs (definitions of every kind + straight-line body) wrapped for n in 0..6 (quick) / 0..40 (thorough) with a fresh counter region and a fixed or placeholder start label; for n >= 2 the wrapped body is executed by a reference interpreter that follows only the counter cell and the control flow, and the trace of every other instruction must be the original body exactly n times, reaching the end within a step bound; n = 1 must equal the original, n = 0 must drop only the body; all original definitions must be present and unchanged in every case.",
+         "JUMP-WHEN taken iff the cell is non-zero (Quil spec / the method's rustdoc). The shape of the loop is not prescribed; a loop the interpreter cannot follow is counted as undecided and a generator-health floor turns a run with too few executed cases into exit 2.",
+         "property-based testing: proptest-generated programs, executable reference interpreter (trace oracle)"),
+ "C34": ("Random bodies over every qubit-bearing instruction kind and every target-bearing instruction, slots filled with fixed qubits, 4 shared qubit placeholders, variables, 3 label placeholders (two with the same base) and fixed labels that collide with the default suffix scheme; default resolution is checked position by position with an independent traversal (no placeholder left, same placeholder same value, distinct placeholders distinct values, no collision with fixed qubits / labels / jump targets of the body, nothing else changed), then custom resolvers for a random subset must replace exactly that subset.",
+         "The traversal of qubit-bearing fields is the harness's own (includes SET-*/SHIFT-*/SWAP-PHASES frames).",
+         "property-based testing: proptest-generated bodies, validity-predicate oracle with an independent traversal"),
+ "C35": ("Random programs over small frame / waveform / extern / calibration alphabets (undefined frames and waveforms, uncalled and malformed externs, calibrations that hoist DECLAREs, invoke waveforms and CALL); simplify(DefaultHandler) is compared with expand_calibrations: same body, no calibrations, frames = those the reference frame matcher reports as used by the expanded body, waveforms = those invoked, externs = those called, declarations / gate definitions / circuits untouched, and per block both schedules fail or are bit-identical.",
+         "Frames 'used' follow the reference model of C26; bare RESET is not generated; a schedule that exists only after simplification is not compared (the statement speaks of computed schedules).",
+         "property-based testing: proptest-generated programs; differential oracle (simplify vs expand) + reference frame model"),
  "C08": ("Random instruction sequences with several definitions of each kind (keys from small pools so that redefinition happens, 4 frame identifiers) are built into a Program by 10 routes in one process and, for a sample, in a second process; every route must print byte-identical text, and the listing within each definition kind must equal an insertion-ordered reference map (first insertion fixes the position, redefinition replaces in place).",
          "Order between definition kinds is not asserted (the statement is silent); the route through text is used only when the parser reads back an equal program.",
          "property-based testing: proptest-generated instruction sequences; metamorphic (same input, many construction routes, two processes) + reference-model oracle"),
